@@ -94,11 +94,28 @@ def impl_load_file(text, suffix='', tmpdir=None):
 
 
 def model_abstains(text):
-    """inputs the text model does not cover: non-ASCII decimal digits (CPython's
-    int()/strptime accept them in numeric fields)"""
-    for c in text:
-        if ord(c) > 127 and unicodedata.category(c) == 'Nd':
-            return True
+    """inputs the text model does not cover: non-ASCII decimal digits in a NUMERIC field (CPython's int() and strptime
+    accept them): the size field of a file entry, the value of a TIMESTAMP. Anywhere else (paths, escapes, checksum
+    fields) such characters are ordinary code points that the model handles."""
+    def nd(tok):
+        return any(ord(c) > 127 and unicodedata.category(c) == 'Nd' for c in tok)
+    if not nd(text):
+        return False
+    for line in text.replace('\r\n', '\n').replace('\r', '\n').split('\n'):
+        toks = line.split()
+        if not toks:
+            continue
+        body = toks[1:] if toks[0] == '-' else toks          # a dash-escaped line of a signed Manifest
+        if not body:
+            continue
+        if body[0] == 'TIMESTAMP':
+            if any(nd(t) for t in body[1:2]):
+                return True
+        elif body[0] in ('MANIFEST', 'DATA', 'DIST', 'EBUILD', 'MISC', 'AUX'):
+            if any(nd(t) for t in body[2:3]):
+                return True
+        elif nd(body[0]):
+            return True                                      # a tag-like token with such digits: leave it to the class oracle
     return False
 
 
